@@ -720,6 +720,26 @@ def rule_i(ctx):
             if not good:
                 ok, detail = False, ('%s (line %d) puts %s into the credit channel: credit the peer did not grant' % (
                     fn.short, n.lineno, ast.unparse(n.args[0]) if n.args else 'a value'))
+        # the channel itself must not remember credit: a replaying subject hands every REQUEST_N seen so far to a
+        # source that attaches later, which then emits that many elements without new credit
+        ctors = []
+        for fn in ctx.repo.all_functions():
+            if fn.module is not m:
+                continue
+            for st in walk_local(fn.node):
+                if isinstance(st, ast.Assign) and isinstance(st.value, ast.Call) and \
+                        'feedback' in ast.unparse(st.targets[0]).lower():
+                    ctors.append((fn, st))
+        if not ctors:
+            raise AnalysisError('C20.i: %s: the feedback subject is created nowhere' % pkg)
+        for fn, st in ctors:
+            callee = ast.unparse(st.value.func).split('.')[-1]
+            good = callee == 'Subject' and not st.value.args and not st.value.keywords
+            rep.add('C20.i', '%s %s / the credit channel does not replay' % (pkg, fn.short), (fn.file, st.lineno), good,
+                    'the feedback channel is a plain Subject(): credit is seen only by who is subscribed when it is '
+                    'granted' if good else
+                    'the feedback channel is %s: a source attaching later is handed credit that was already spent' %
+                    ast.unparse(st.value))
         rep.add('C20.i', '%s back_pressure_publisher / credit comes from request(n) only' % pkg,
                 (sites[0][0].file, sites[0][1].lineno), ok,
                 detail or 'the only on_next on a credit Subject is request(n) forwarding its n (%d site)' % len(sites))
